@@ -73,7 +73,9 @@ def check(ctx):
                          detail={"first": col[0], "requested": wq})
         if name in POSITIVE and not bool((out["spot"] >= 0).all()):
             ctx.fail("an exponential-type price process is negative", case, key=f"gen:{name}:negative")
-        if name in POSITIVE and dname == "float64" and not bool((out["spot"] > 0).all()) and p["n"] <= 20:
+        # (jump models with hundreds of large down-jumps legitimately underflow even in float64: the zero is then the model's value too)
+        mild = not (name in ("merton_jump", "kou_jump") and p["lam"] * p["n"] * p["dt"] * max(abs(p.get("jm", 0.0)), p.get("mean_down", 0.0)) > 300)
+        if name in POSITIVE and dname == "float64" and mild and not bool((out["spot"] > 0).all()) and p["n"] <= 20:
             ctx.fail("an exponential-type price process is zero without underflow", case, key=f"gen:{name}:zero")
         if name == "cir" and not bool((out["spot"] >= 0).all()):
             ctx.fail("CIR variance process is negative", case, key="gen:cir:negative")
@@ -115,6 +117,28 @@ def check(ctx):
             elif bool(o.isnan().any()) or not bool((o >= 0).all()):
                 ctx.fail("generate_kou_jump returns NaN / negative prices in float32 (inf * 0: drift correction overflows while the jump product underflows)",
                          case, key="gen:kou_jump:spot:nonfinite", detail={"first_path": [float(x) for x in o[0].tolist()][:8]})
+    # ---------------- extreme but admissible regimes in float32 (long horizons, frequent large jumps, high volatility): values may
+    # overflow to +inf or underflow to 0, they are never NaN or negative (an `exp(a) * exp(b)` split would give inf * 0 here)
+    extreme = [
+        ("merton_jump", lambda: S.generate_merton_jump(3, 750, jump_per_year=68.0, jump_mean=-1.0, jump_std=0.3, dtype=torch.float32)),
+        ("merton_jump", lambda: S.generate_merton_jump(3, 750, jump_per_year=68.0, jump_mean=1.0, jump_std=0.3, dtype=torch.float32)),
+        ("merton_jump", lambda: S.generate_merton_jump(2, 400, jump_per_year=500.0, jump_mean=-0.5, jump_std=0.1, sigma=0.5, dtype=torch.float32)),
+        ("kou_jump", lambda: S.generate_kou_jump(3, 750, jump_per_year=68.0, jump_mean_up=0.5, jump_mean_down=1.0, jump_up_prob=0.1, dtype=torch.float32)),
+        ("geometric_brownian", lambda: S.generate_geometric_brownian(3, 2000, sigma=3.0, mu=-2.0, dtype=torch.float32)),
+        ("heston", lambda: S.generate_heston(3, 750, sigma=2.0, theta=1.0, init_state=(1.0, 1.0), dtype=torch.float32).spot),
+        ("rough_bergomi", lambda: S.generate_rough_bergomi(2, 300, eta=3.0, xi=0.5, init_state=(1.0, 0.5), dtype=torch.float32).spot),
+    ]
+    for ei, (gname, fn_) in enumerate(extreme):
+        for sd in range(2):
+            torch.manual_seed(2000 + sd)
+            case = {"corpus": "extreme float32 regime", "generator": gname, "index": ei, "torch_seed": 2000 + sd}
+            ctx.case(case, True, tag="corpus")
+            st, o, _ = call_impl(fn_)
+            if st != "ok":
+                ctx.fail("a generator raised on admissible parameters", case, key=f"gen:{gname}:error", detail=o)
+            elif bool(o.isnan().any()) or bool((o < 0).any()):
+                ctx.fail("an exponential-type price process is NaN / negative in an extreme float32 regime (inf * 0 ?)", case,
+                         key=f"gen:{gname}:spot:nonfinite", detail={"nan": int(o.isnan().sum()), "negative": int((o < 0).sum())})
     # ---------------- instruments
     def build(name, dtype):
         kw = {"dtype": dtype}
@@ -139,11 +163,20 @@ def check(ctx):
         for rnd in range(g.choice([1, 2, 3])):
             npaths, hor = g.choice([1, 2, 5]), g.choice([2, 5, 11]) / 250
             init = None
-            if g.chance(0.4):
+            if g.chance(0.5):
                 d0 = inst.default_init_state
                 init = tuple((float(x) * g.choice([1.0, 1.5, 0.5]) if float(x) != 0 else 0.05) for x in d0)
-            st, v, _ = call_impl(inst.simulate, n_paths=npaths, time_horizon=hor, init_state=init)
-            c2 = case | {"round": rnd, "n_paths": npaths, "horizon": hor, "init_state": init}
+                if name in ("VasicekRate", "CIRRate") and g.chance(0.3):
+                    init = (0.0,)          # a zero initial short rate is a legal request
+            init_arg = init
+            if init is not None and len(init) == 1:
+                # the initial state may be passed as a tuple, a bare scalar or a 0-dim tensor (cast_state accepts all three)
+                form = g.choice(["tuple", "scalar", "tensor0"])
+                init_arg = init if form == "tuple" else (init[0] if form == "scalar" else
+                                                         torch.tensor(init[0], dtype=(torch.get_default_dtype() if dtype is None else dtype)))
+            st, v, _ = call_impl(inst.simulate, n_paths=npaths, time_horizon=hor, init_state=init_arg)
+            c2 = case | {"round": rnd, "n_paths": npaths, "horizon": hor, "init_state": init,
+                         "init_form": None if init_arg is None else type(init_arg).__name__}
             if st != "ok":
                 key = "vasicek:recursion" if v == "recursion_error" else f"instrument:{name}:simulate-error"
                 ctx.fail("simulate() raised", c2, key=key, detail=v)
